@@ -114,9 +114,17 @@ func c12buildGrids(thorough bool) {
 	}
 	prog = append(prog, cmd("DEL", "c"), cmd("INCR", "c"), cmd("DEL", "c"), cmd("DECRBY", "c", "5"), cmd("GET", "c"))
 	add("counter-boundaries", prog)
+	// counters on every stored string of length <= 3 over {-, +, 0, 1, 9, space, .}: which spellings count as integers
+	for _, op := range [][]string{{"INCR", "c"}, {"DECRBY", "c", "5"}} {
+		var prog []resp.Value
+		for _, v := range gen.Strings([]byte("-+019 ."), 3) {
+			prog = append(prog, cmd("SET", "c", string(v)), cmd(op...), cmd("GET", "c"))
+		}
+		add("counter-spellings-"+op[0], prog)
+	}
 }
 
-var c12vals = []string{"a", "", "hello", "10", "-3", "9223372036854775807", "-9223372036854775808", "1.5", "x\r\ny", "\x00\xff", "9223372036854775800"}
+var c12vals = []string{"a", "", "hello", "10", "-3", "9223372036854775807", "-9223372036854775808", "1.5", "x\r\ny", "\x00\xff", "9223372036854775800", "-0", "+1", "01", "0"}
 
 func c12random(r *rng.R) []resp.Value {
 	cmd := resp.Cmd
@@ -340,7 +348,7 @@ func init() {
 	run.Register(&run.Prop{
 		ID: "C12", Level: "exploration",
 		Rule: func(tier string) string {
-			return "case = one command program run through the real connection loop with a reference store (Redis-like primitives over an executable model state, one mutex) as handler, and through the executable Redis model directly; every reply compared as decoded values (status vs bulk, set/hash order, error text and float formatting insensitive) and the final store contents compared with the model state. Exhaustive grids: GETRANGE and SUBSTR on strings of length 0..6 x start,end in -9..9 (and a missing key); ZREVRANGE on sets of size 0..5 x start,stop in -7..7 x {plain, WITHSCORES} x {distinct, tied scores}; ZREVRANGEBYSCORE over 6x6 bounds x inclusive/exclusive x WITHSCORES x tied with LIMIT; counters at the 64-bit boundary and on non-integers. Then seeded random programs (<=25 steps, 3 keys, value pool with integers near +-2^63, non-integers, empty, binary) over PING, ECHO, MSET, MSETNX, MGET, APPEND, INCR/DECR/INCRBY/DECRBY, STRLEN, GETRANGE, HMSET, HMGET, HEXISTS, HKEYS, HVALS, HLEN, HSTRLEN, SCARD, SISMEMBER, ZCARD, ZREVRANGE, ZREVRANGEBYSCORE, CONFIG SET/GET. distinct_nontrivial = distinct (command argv, model-state tags) steps"
+			return "case = one command program run through the real connection loop with a reference store (Redis-like primitives over an executable model state, one mutex) as handler, and through the executable Redis model directly; every reply compared as decoded values (status vs bulk, set/hash order, error text and float formatting insensitive) and the final store contents compared with the model state. Exhaustive grids: GETRANGE and SUBSTR on strings of length 0..6 x start,end in -9..9 (and a missing key); ZREVRANGE on sets of size 0..5 x start,stop in -7..7 x {plain, WITHSCORES} x {distinct, tied scores}; ZREVRANGEBYSCORE over 6x6 bounds x inclusive/exclusive x WITHSCORES x tied with LIMIT; counters at the 64-bit boundary and on non-integers, and on every stored string of length <= 3 over {-, +, 0, 1, 9, space, .}. Then seeded random programs (<=25 steps, 3 keys, value pool with integers near +-2^63, non-integers, empty, binary) over PING, ECHO, MSET, MSETNX, MGET, APPEND, INCR/DECR/INCRBY/DECRBY, STRLEN, GETRANGE, HMSET, HMGET, HEXISTS, HKEYS, HVALS, HLEN, HSTRLEN, SCARD, SISMEMBER, ZCARD, ZREVRANGE, ZREVRANGEBYSCORE, CONFIG SET/GET. distinct_nontrivial = distinct (command argv, model-state tags) steps"
 		},
 		Exhaustive:  func(string) bool { return false },
 		Assumptions: []string{"the executable model in /verif/harness/model (written from the Redis command reference, own unit tests) is the reference", "integer syntax follows Redis string2ll (no '+', no leading zeros); such tokens are not generated"},
